@@ -605,5 +605,95 @@ impl super::Transport for ArcCC {
     }
 }
 
+/// verification hook: read-only snapshot of the controller state (cfg gmquic_verif only)
+#[cfg(gmquic_verif)]
+pub mod verif {
+    use tokio::time::{Duration, Instant};
+
+    /// (packet_number, time_sent, ack_eliciting, count_for_cc, sent_bytes, state 0=Inflight 1=Acked 2=Retransmitted)
+    pub type Pkt = (u64, Instant, bool, bool, usize, u8);
+
+    pub struct Space {
+        pub largest_acked_packet: Option<u64>,
+        pub time_of_last_ack_eliciting_packet: Option<Instant>,
+        pub loss_time: Option<Instant>,
+        pub sent_packets: Vec<Pkt>,
+        pub need_send_ack_eliciting: usize,
+    }
+
+    pub struct Snapshot {
+        pub congestion_window: usize,
+        pub ssthresh: usize,
+        pub bytes_in_flight: usize,
+        pub congestion_recovery_start_time: Option<Instant>,
+        pub ecn_ce_counters: [u64; 3],
+        pub pto_count: u32,
+        pub loss_detection_timer: Option<Instant>,
+        pub pending_burst: bool,
+        pub latest_rtt: Duration,
+        pub smoothed_rtt: Duration,
+        pub rttvar: Duration,
+        pub min_rtt: Duration,
+        pub has_rtt_sample: bool,
+        pub loss_delay: Duration,
+        /// (capacity, tokens, cwnd, last rate, last new tokens, last_burst_time)
+        pub pacer: (usize, usize, usize, usize, usize, Instant),
+        pub spaces: [Space; 3],
+    }
+}
+
+#[cfg(gmquic_verif)]
+impl ArcCC {
+    pub fn verif_snapshot(&self) -> verif::Snapshot {
+        use crate::packets::State;
+        let g = self.0.lock().unwrap();
+        let (congestion_window, ssthresh, bytes_in_flight, congestion_recovery_start_time, ecn_ce_counters) =
+            g.algorithm.verif_state();
+        let (latest_rtt, smoothed_rtt, rttvar, min_rtt, has_rtt_sample) = g.rtt.verif_fields();
+        let space = |e: Epoch| verif::Space {
+            largest_acked_packet: g.packet_spaces[e].largest_acked_packet,
+            time_of_last_ack_eliciting_packet: g.packet_spaces[e].time_of_last_ack_eliciting_packet,
+            loss_time: g.packet_spaces[e].loss_time,
+            sent_packets: g.packet_spaces[e]
+                .sent_packets
+                .iter()
+                .map(|p| {
+                    (
+                        p.packet_number,
+                        p.time_sent,
+                        p.ack_eliciting,
+                        p.count_for_cc,
+                        p.sent_bytes,
+                        match p.state {
+                            State::Inflight => 0u8,
+                            State::Acked => 1,
+                            State::Retransmitted => 2,
+                        },
+                    )
+                })
+                .collect(),
+            need_send_ack_eliciting: g.need_send_ack_eliciting_packets[e],
+        };
+        verif::Snapshot {
+            congestion_window,
+            ssthresh,
+            bytes_in_flight,
+            congestion_recovery_start_time,
+            ecn_ce_counters,
+            pto_count: g.pto_count,
+            loss_detection_timer: g.loss_detection_timer,
+            pending_burst: g.pending_burst,
+            latest_rtt,
+            smoothed_rtt,
+            rttvar,
+            min_rtt,
+            has_rtt_sample,
+            loss_delay: g.rtt.loss_delay(),
+            pacer: g.pacer.verif_state(),
+            spaces: [space(Epoch::Initial), space(Epoch::Handshake), space(Epoch::Data)],
+        }
+    }
+}
+
 #[cfg(test)]
 mod tests {}
